@@ -222,3 +222,80 @@ def loop_passes(body, entry, head, through):
                 seen.add(nx)
                 stack.append(nx)
     return True
+
+
+# ------------------------------------------------------------------------------------------------
+# loop exits
+def _errish(b, bi):
+    """Does block bi give the function's result an error-like value (Err/None literal or a propagated residual)?"""
+    blk = b.blocks[bi]
+    for s in blk["stmts"]:
+        if s["k"] == "assign" and s["place"]["l"] == 0 and not s["place"]["p"]:
+            rv = s["rv"]
+            return bool(rv["k"] == "agg" and rv.get("variant") in ("Err", "None"))
+    t = blk["term"]
+    if t["k"] == "call" and t["dest"]["l"] == 0 and not t["dest"]["p"]:
+        return (t.get("callee") or "").endswith("from_residual")
+    return None
+
+
+def _all_paths_error(b, v, loop):
+    seen = set()
+    stack = [v]
+    while stack:
+        x = stack.pop()
+        if x in seen:
+            continue
+        seen.add(x)
+        if x in loop:
+            return False
+        e = _errish(b, x)
+        if e is True:
+            continue
+        if e is False:
+            return False
+        t = b.blocks[x]["term"]
+        if t["k"] == "return":
+            return False
+        stack.extend(b.succs(x))
+    return True
+
+
+def early_exits(b):
+    """Edges that leave a loop of b in a way that is neither the exhaustion of the loop's iterator
+    (the None arm of its `next()`) nor an error return: `break`, `while` conditions, `return Ok(..)`
+    from inside a loop. Returns [(loop head, from block, to block)]."""
+    import re as _re
+    out = []
+    for h, blocks in b.loops():
+        blocks = set(blocks)
+        for u in sorted(blocks):
+            if b.blocks[u]["cleanup"]:
+                continue
+            for v in b.succs(u):
+                if v in blocks:
+                    continue
+                t = b.blocks[u]["term"]
+                if t["k"] == "switch":
+                    sh = q.shape(b.expr_of_operand(t["discr"]))
+                    if _re.match(r"^discr\((some\()?[\w:<>]*::next\(", sh) and [a for a in t["arms"] if a[1] == v and a[0] == 0]:
+                        continue
+                if _all_paths_error(b, v, blocks):
+                    continue
+                out.append((h, u, v))
+    return out
+
+
+def loop_exit_rule(ctx, rule, table):
+    """table: {root function: number of early exits counted on the reference tree}. A loop that
+    must visit every element (segments, tokens, sections, lines) may not gain a way out: `continue`
+    turned into `break`, a new early `return Ok`, a new `while` condition."""
+    for root, allowed in sorted(table.items()):
+        bodies = [ctx.body(root)] + list(ctx.facts.closures_of(root))
+        found = []
+        for b in bodies:
+            for h, u, v in early_exits(b):
+                found.append("%s@%s" % (b.path.split("::")[-1], ctx.site(b, u)))
+        ctx.check(len(found) <= allowed, rule, root, "loop-exits",
+                  "the loops of %s end only when their iterator is exhausted or with an error, apart from %d reviewed exit(s) (break / while condition / early Ok)" % (root.split("::")[-1], allowed),
+                  detail="%d found: %s" % (len(found), found))
